@@ -510,3 +510,113 @@ Proof.
     unfold len in *. rewrite !app_length in Hin. lia.
   - exists s', tr'. split; [exact H1|]. cbn in H2. lia.
 Qed.
+
+(* ---------------------------------------------------------------------------
+   sequencing two client operations on the same device; thin wrappers *)
+Lemma run_tr_app_f {A S} (dev : device S) (p : prog A) : forall s tr,
+  run p dev s tr = let '(r, s', t) := run p dev s [] in (r, s', tr ++ t).
+Proof.
+  induction p as [a|e|r k IH|ms k IH]; intros s tr; cbn [run].
+  - now rewrite app_nil_r.
+  - now rewrite app_nil_r.
+  - destruct (dev s r) as [s1 rp]. rewrite (IH rp s1 (tr ++ [(r, rp)])), (IH rp s1 ([] ++ [(r, rp)])).
+    destruct (run (k rp) dev s1 []) as [[res s2] t]. now rewrite <- app_assoc.
+  - apply IH.
+Qed.
+
+Lemma run_seq {A B S} (dev : device S) (p : prog A) (f : A -> prog B) s a s1 t1 r s2 t2 :
+  run p dev s [] = (Ok a, s1, t1) -> run (f a) dev s1 [] = (r, s2, t2) ->
+  run (pbind p f) dev s [] = (r, s2, t1 ++ t2).
+Proof.
+  intros H1 H2. rewrite (run_bind_ok dev p f s [] a s1 t1 H1), run_tr_app_f, H2. reflexivity.
+Qed.
+
+Lemma slice_splice l off d : off + len d <= len l -> slice (splice l off d) off (len d) = d.
+Proof.
+  unfold len, slice, splice. intros H. rewrite Nat2N.id.
+  rewrite skipn_app_exact by (rewrite firstn_length; lia).
+  apply firstn_app_exact. reflexivity.
+Qed.
+
+Lemma splice_len_N l off d : off + len d <= len l -> len (splice l off d) = len l.
+Proof. unfold len. intros H. rewrite splice_len by lia. reflexivity. Qed.
+
+Lemma write_exact_strong : forall s wl data off id,
+  id < 256 -> 1 <= wl -> wl <= 255 -> (forall k n, fd_ack s k n = n) ->
+  off + len data <= len (fd_mem s id) -> len (fd_mem s id) <= 65536 ->
+  exists s' tr, run (write_fru_data wl data off id) fru_dev s [] = (Ok tt, s', tr)
+    /\ fd_mem s' id = splice (fd_mem s id) off data
+    /\ (forall i, i <> id -> fd_mem s' i = fd_mem s i)
+    /\ fd_limit s' = fd_limit s /\ fd_rej s' = fd_rej s
+    /\ Forall (fun x => req_fru_id (fst x) = Some id) tr.
+Proof.
+  intros s wl data off id Hid Hwl1 Hwl2 Hack Hin H64.
+  unfold write_fru_data. destruct (N.eqb_spec wl 0); [lia|].
+  pose proof (all_req_run (names id) _ fru_dev (all_req_write_chunks id Hid (chunks data (N.to_nat wl)) off) s [] (Forall_nil _)) as Hf.
+  destruct (write_chunks_exact id Hid (chunks data (N.to_nat wl)) s off []) as [s' [tr' [H1 [H2 [H3 [H4 H5]]]]]];
+    try assumption.
+  - eapply Forall_impl; [|apply (chunks_aux_small (N.to_nat wl)); lia]. cbn. intros c Hc. unfold len. lia.
+  - rewrite chunks_concat by lia. assumption.
+  - exists s', tr'. rewrite H1 in Hf. rewrite chunks_concat in H2 by lia. auto 10.
+Qed.
+
+(* write, then read the same range back: exactly the data; nothing else changed *)
+Lemma write_then_read : forall s wl data off id,
+  id < 256 -> 1 <= wl -> wl <= 255 -> (forall k n, fd_ack s k n = n) ->
+  2 <= fd_limit s -> is_backoff_cc (fd_rej s) = true ->
+  off + len data <= len (fd_mem s id) -> len (fd_mem s id) <= 65536 ->
+  exists s' tr,
+    run (dop _ <- write_fru_data wl data off id; read_fru_data (Some (off, len data)) id) fru_dev s []
+      = (Ok data, s', tr)
+    /\ fd_mem s' id = firstn (N.to_nat off) (fd_mem s id) ++ data
+                      ++ skipn (N.to_nat off + length data) (fd_mem s id)
+    /\ (forall i, i <> id -> fd_mem s' i = fd_mem s i)
+    /\ Forall (fun x => req_fru_id (fst x) = Some id) tr.
+Proof.
+  intros s wl data off id Hid Hwl1 Hwl2 Hack HL Hrej Hin H64.
+  destruct (write_exact_strong s wl data off id Hid Hwl1 Hwl2 Hack Hin H64)
+    as (s1 & t1 & Hw & Hm & Ho & Hl1 & Hr1 & Hf1).
+  assert (Hlen1 : len (fd_mem s1 id) = len (fd_mem s id)) by (rewrite Hm; apply splice_len_N; exact Hin).
+  destruct (read_range_exact s1 id off (len data)) as (t2 & Hrd & Hf2); try lia; try congruence.
+  exists s1, (t1 ++ t2). split.
+  - rewrite (run_seq fru_dev _ _ s tt s1 t1 _ _ _ Hw Hrd). rewrite Hm, slice_splice by exact Hin. reflexivity.
+  - split; [exact Hm|]. split; [exact Ho|]. apply Forall_app. split; assumption.
+Qed.
+
+(* write, then read the whole area: the updated area *)
+Lemma write_then_read_whole : forall s wl data off id,
+  id < 256 -> 1 <= wl -> wl <= 255 -> (forall k n, fd_ack s k n = n) ->
+  2 <= fd_limit s -> is_backoff_cc (fd_rej s) = true ->
+  off + len data <= len (fd_mem s id) -> len (fd_mem s id) <= 65535 ->
+  exists s' tr,
+    run (dop _ <- write_fru_data wl data off id; read_fru_data_full id) fru_dev s []
+      = (Ok (firstn (N.to_nat off) (fd_mem s id) ++ data
+             ++ skipn (N.to_nat off + length data) (fd_mem s id)), s', tr)
+    /\ (forall i, i <> id -> fd_mem s' i = fd_mem s i)
+    /\ Forall (fun x => req_fru_id (fst x) = Some id) tr.
+Proof.
+  intros s wl data off id Hid Hwl1 Hwl2 Hack HL Hrej Hin H64.
+  destruct (write_exact_strong s wl data off id Hid Hwl1 Hwl2 Hack Hin ltac:(lia))
+    as (s1 & t1 & Hw & Hm & Ho & Hl1 & Hr1 & Hf1).
+  assert (Hlen1 : len (fd_mem s1 id) = len (fd_mem s id)) by (rewrite Hm; apply splice_len_N; exact Hin).
+  destruct (read_whole_exact s1 id) as (t2 & Hrd & Hf2); try lia; try congruence.
+  exists s1, (t1 ++ t2). split.
+  - unfold read_fru_data_full. rewrite (run_seq fru_dev _ _ s tt s1 t1 _ _ _ Hw Hrd). rewrite Hm. reflexivity.
+  - split; [exact Ho|]. apply Forall_app. split; assumption.
+Qed.
+
+(* get_fru_inventory_area_info: the size of the named FRU's area, one request, device unchanged *)
+Lemma area_info_exact : forall s id, id < 256 -> len (fd_mem s id) <= 65535 ->
+  run (get_fru_inventory_area_info id) fru_dev s []
+  = (Ok (len (fd_mem s id)), s, [(info_req id, RBytes (0 :: le_bytes 2 (len (fd_mem s id)) ++ [0]))]).
+Proof.
+  intros s id Hid H64. unfold get_fru_inventory_area_info, send_msg. cbn [run].
+  rewrite dev_info by assumption. rewrite dec_info_ok by lia. reflexivity.
+Qed.
+
+Lemma read_full_exact : forall s id,
+  id < 256 -> 2 <= fd_limit s -> is_backoff_cc (fd_rej s) = true ->
+  len (fd_mem s id) <= 65535 ->
+  exists tr, run (read_fru_data_full id) fru_dev s [] = (Ok (fd_mem s id), s, tr)
+          /\ Forall (fun x => req_fru_id (fst x) = Some id) tr.
+Proof. exact read_whole_exact. Qed.
